@@ -105,168 +105,168 @@ macro_rules! negop {
     };
 }
 
-// @h name=c12_add_i8_exact props=C12,C05 tier=thorough
+// @h name=c12_add_i8_exact props=C12 tier=thorough
 // @h name=c12_add_i8_err props=C12,C15 tier=thorough
 binop!(c12_add_i8_exact, c12_add_i8_err, Add, PhysicalI8, i8, int8, checked_add);
-// @h name=c12_add_i16_exact props=C12,C05 tier=thorough
+// @h name=c12_add_i16_exact props=C12 tier=thorough
 // @h name=c12_add_i16_err props=C12,C15 tier=thorough
 binop!(c12_add_i16_exact, c12_add_i16_err, Add, PhysicalI16, i16, int16, checked_add);
-// @h name=c12_add_i32_exact props=C12,C05 tier=quick
+// @h name=c12_add_i32_exact props=C12 tier=quick
 // @h name=c12_add_i32_err props=C12,C15 tier=quick
 binop!(c12_add_i32_exact, c12_add_i32_err, Add, PhysicalI32, i32, int32, checked_add);
-// @h name=c12_add_i64_exact props=C12,C05 tier=thorough
+// @h name=c12_add_i64_exact props=C12 tier=thorough
 // @h name=c12_add_i64_err props=C12,C15 tier=thorough
 binop!(c12_add_i64_exact, c12_add_i64_err, Add, PhysicalI64, i64, int64, checked_add);
-// @h name=c12_add_i128_exact props=C12,C05 tier=thorough
+// @h name=c12_add_i128_exact props=C12 tier=thorough
 // @h name=c12_add_i128_err props=C12,C15 tier=thorough
 binop!(c12_add_i128_exact, c12_add_i128_err, Add, PhysicalI128, i128, int128, checked_add);
-// @h name=c12_add_u8_exact props=C12,C05 tier=quick
+// @h name=c12_add_u8_exact props=C12 tier=quick
 // @h name=c12_add_u8_err props=C12,C15 tier=quick
 binop!(c12_add_u8_exact, c12_add_u8_err, Add, PhysicalU8, u8, uint8, checked_add);
-// @h name=c12_add_u16_exact props=C12,C05 tier=thorough
+// @h name=c12_add_u16_exact props=C12 tier=thorough
 // @h name=c12_add_u16_err props=C12,C15 tier=thorough
 binop!(c12_add_u16_exact, c12_add_u16_err, Add, PhysicalU16, u16, uint16, checked_add);
-// @h name=c12_add_u32_exact props=C12,C05 tier=thorough
+// @h name=c12_add_u32_exact props=C12 tier=thorough
 // @h name=c12_add_u32_err props=C12,C15 tier=thorough
 binop!(c12_add_u32_exact, c12_add_u32_err, Add, PhysicalU32, u32, uint32, checked_add);
-// @h name=c12_add_u64_exact props=C12,C05 tier=thorough
+// @h name=c12_add_u64_exact props=C12 tier=thorough
 // @h name=c12_add_u64_err props=C12,C15 tier=thorough
 binop!(c12_add_u64_exact, c12_add_u64_err, Add, PhysicalU64, u64, uint64, checked_add);
-// @h name=c12_add_u128_exact props=C12,C05 tier=thorough
+// @h name=c12_add_u128_exact props=C12 tier=thorough
 // @h name=c12_add_u128_err props=C12,C15 tier=thorough
 binop!(c12_add_u128_exact, c12_add_u128_err, Add, PhysicalU128, u128, uint128, checked_add);
-// @h name=c12_sub_i8_exact props=C12,C05 tier=thorough
+// @h name=c12_sub_i8_exact props=C12 tier=thorough
 // @h name=c12_sub_i8_err props=C12,C15 tier=thorough
 binop!(c12_sub_i8_exact, c12_sub_i8_err, Sub, PhysicalI8, i8, int8, checked_sub);
-// @h name=c12_sub_i16_exact props=C12,C05 tier=thorough
+// @h name=c12_sub_i16_exact props=C12 tier=thorough
 // @h name=c12_sub_i16_err props=C12,C15 tier=thorough
 binop!(c12_sub_i16_exact, c12_sub_i16_err, Sub, PhysicalI16, i16, int16, checked_sub);
-// @h name=c12_sub_i32_exact props=C12,C05 tier=thorough
+// @h name=c12_sub_i32_exact props=C12 tier=thorough
 // @h name=c12_sub_i32_err props=C12,C15 tier=thorough
 binop!(c12_sub_i32_exact, c12_sub_i32_err, Sub, PhysicalI32, i32, int32, checked_sub);
-// @h name=c12_sub_i64_exact props=C12,C05 tier=quick
+// @h name=c12_sub_i64_exact props=C12 tier=quick
 // @h name=c12_sub_i64_err props=C12,C15 tier=quick
 binop!(c12_sub_i64_exact, c12_sub_i64_err, Sub, PhysicalI64, i64, int64, checked_sub);
-// @h name=c12_sub_i128_exact props=C12,C05 tier=thorough
+// @h name=c12_sub_i128_exact props=C12 tier=thorough
 // @h name=c12_sub_i128_err props=C12,C15 tier=thorough
 binop!(c12_sub_i128_exact, c12_sub_i128_err, Sub, PhysicalI128, i128, int128, checked_sub);
-// @h name=c12_sub_u8_exact props=C12,C05 tier=thorough
+// @h name=c12_sub_u8_exact props=C12 tier=thorough
 // @h name=c12_sub_u8_err props=C12,C15 tier=thorough
 binop!(c12_sub_u8_exact, c12_sub_u8_err, Sub, PhysicalU8, u8, uint8, checked_sub);
-// @h name=c12_sub_u16_exact props=C12,C05 tier=quick
+// @h name=c12_sub_u16_exact props=C12 tier=quick
 // @h name=c12_sub_u16_err props=C12,C15 tier=quick
 binop!(c12_sub_u16_exact, c12_sub_u16_err, Sub, PhysicalU16, u16, uint16, checked_sub);
-// @h name=c12_sub_u32_exact props=C12,C05 tier=thorough
+// @h name=c12_sub_u32_exact props=C12 tier=thorough
 // @h name=c12_sub_u32_err props=C12,C15 tier=thorough
 binop!(c12_sub_u32_exact, c12_sub_u32_err, Sub, PhysicalU32, u32, uint32, checked_sub);
-// @h name=c12_sub_u64_exact props=C12,C05 tier=thorough
+// @h name=c12_sub_u64_exact props=C12 tier=thorough
 // @h name=c12_sub_u64_err props=C12,C15 tier=thorough
 binop!(c12_sub_u64_exact, c12_sub_u64_err, Sub, PhysicalU64, u64, uint64, checked_sub);
-// @h name=c12_sub_u128_exact props=C12,C05 tier=thorough
+// @h name=c12_sub_u128_exact props=C12 tier=thorough
 // @h name=c12_sub_u128_err props=C12,C15 tier=thorough
 binop!(c12_sub_u128_exact, c12_sub_u128_err, Sub, PhysicalU128, u128, uint128, checked_sub);
-// @h name=c12_mul_i8_exact props=C12,C05 tier=thorough
+// @h name=c12_mul_i8_exact props=C12 tier=thorough
 // @h name=c12_mul_i8_err props=C12,C15 tier=thorough
 binop!(c12_mul_i8_exact, c12_mul_i8_err, Mul, PhysicalI8, i8, int8, checked_mul);
-// @h name=c12_mul_i16_exact props=C12,C05 tier=quick
+// @h name=c12_mul_i16_exact props=C12 tier=quick
 // @h name=c12_mul_i16_err props=C12,C15 tier=quick
 binop!(c12_mul_i16_exact, c12_mul_i16_err, Mul, PhysicalI16, i16, int16, checked_mul);
-// @h name=c12_mul_i32_exact props=C12,C05 tier=thorough
+// @h name=c12_mul_i32_exact props=C12 tier=thorough
 // @h name=c12_mul_i32_err props=C12,C15 tier=thorough
 binop!(c12_mul_i32_exact, c12_mul_i32_err, Mul, PhysicalI32, i32, int32, checked_mul);
-// @h name=c12_mul_i64_exact props=C12,C05 tier=thorough
+// @h name=c12_mul_i64_exact props=C12 tier=thorough
 // @h name=c12_mul_i64_err props=C12,C15 tier=thorough
 binop!(c12_mul_i64_exact, c12_mul_i64_err, Mul, PhysicalI64, i64, int64, checked_mul);
-// @h name=c12_mul_i128_exact props=C12,C05 tier=thorough
+// @h name=c12_mul_i128_exact props=C12 tier=thorough
 // @h name=c12_mul_i128_err props=C12,C15 tier=thorough
 binop!(c12_mul_i128_exact, c12_mul_i128_err, Mul, PhysicalI128, i128, int128, checked_mul);
-// @h name=c12_mul_u8_exact props=C12,C05 tier=quick
+// @h name=c12_mul_u8_exact props=C12 tier=quick
 // @h name=c12_mul_u8_err props=C12,C15 tier=quick
 binop!(c12_mul_u8_exact, c12_mul_u8_err, Mul, PhysicalU8, u8, uint8, checked_mul);
-// @h name=c12_mul_u16_exact props=C12,C05 tier=thorough
+// @h name=c12_mul_u16_exact props=C12 tier=thorough
 // @h name=c12_mul_u16_err props=C12,C15 tier=thorough
 binop!(c12_mul_u16_exact, c12_mul_u16_err, Mul, PhysicalU16, u16, uint16, checked_mul);
-// @h name=c12_mul_u32_exact props=C12,C05 tier=thorough
+// @h name=c12_mul_u32_exact props=C12 tier=thorough
 // @h name=c12_mul_u32_err props=C12,C15 tier=thorough
 binop!(c12_mul_u32_exact, c12_mul_u32_err, Mul, PhysicalU32, u32, uint32, checked_mul);
-// @h name=c12_mul_u64_exact props=C12,C05 tier=thorough
+// @h name=c12_mul_u64_exact props=C12 tier=thorough
 // @h name=c12_mul_u64_err props=C12,C15 tier=thorough
 binop!(c12_mul_u64_exact, c12_mul_u64_err, Mul, PhysicalU64, u64, uint64, checked_mul);
-// @h name=c12_mul_u128_exact props=C12,C05 tier=thorough
+// @h name=c12_mul_u128_exact props=C12 tier=thorough
 // @h name=c12_mul_u128_err props=C12,C15 tier=thorough
 binop!(c12_mul_u128_exact, c12_mul_u128_err, Mul, PhysicalU128, u128, uint128, checked_mul);
-// @h name=c12_div_i8_exact props=C12,C05 tier=thorough
+// @h name=c12_div_i8_exact props=C12 tier=thorough
 // @h name=c12_div_i8_err props=C12,C15 tier=thorough
 binop!(c12_div_i8_exact, c12_div_i8_err, Div, PhysicalI8, i8, int8, checked_div);
-// @h name=c12_div_i16_exact props=C12,C05 tier=quick
+// @h name=c12_div_i16_exact props=C12 tier=quick
 // @h name=c12_div_i16_err props=C12,C15 tier=quick
 binop!(c12_div_i16_exact, c12_div_i16_err, Div, PhysicalI16, i16, int16, checked_div);
-// @h name=c12_div_i32_exact props=C12,C05 tier=thorough
+// @h name=c12_div_i32_exact props=C12 tier=thorough
 // @h name=c12_div_i32_err props=C12,C15 tier=thorough
 binop!(c12_div_i32_exact, c12_div_i32_err, Div, PhysicalI32, i32, int32, checked_div);
-// @h name=c12_div_i64_exact props=C12,C05 tier=thorough
+// @h name=c12_div_i64_exact props=C12 tier=thorough
 // @h name=c12_div_i64_err props=C12,C15 tier=thorough
 binop!(c12_div_i64_exact, c12_div_i64_err, Div, PhysicalI64, i64, int64, checked_div);
-// @h name=c12_div_i128_exact props=C12,C05 tier=thorough
+// @h name=c12_div_i128_exact props=C12 tier=thorough
 // @h name=c12_div_i128_err props=C12,C15 tier=thorough
 binop!(c12_div_i128_exact, c12_div_i128_err, Div, PhysicalI128, i128, int128, checked_div);
-// @h name=c12_div_u8_exact props=C12,C05 tier=quick
+// @h name=c12_div_u8_exact props=C12 tier=quick
 // @h name=c12_div_u8_err props=C12,C15 tier=quick
 binop!(c12_div_u8_exact, c12_div_u8_err, Div, PhysicalU8, u8, uint8, checked_div);
-// @h name=c12_div_u16_exact props=C12,C05 tier=thorough
+// @h name=c12_div_u16_exact props=C12 tier=thorough
 // @h name=c12_div_u16_err props=C12,C15 tier=thorough
 binop!(c12_div_u16_exact, c12_div_u16_err, Div, PhysicalU16, u16, uint16, checked_div);
-// @h name=c12_div_u32_exact props=C12,C05 tier=thorough
+// @h name=c12_div_u32_exact props=C12 tier=thorough
 // @h name=c12_div_u32_err props=C12,C15 tier=thorough
 binop!(c12_div_u32_exact, c12_div_u32_err, Div, PhysicalU32, u32, uint32, checked_div);
-// @h name=c12_div_u64_exact props=C12,C05 tier=thorough
+// @h name=c12_div_u64_exact props=C12 tier=thorough
 // @h name=c12_div_u64_err props=C12,C15 tier=thorough
 binop!(c12_div_u64_exact, c12_div_u64_err, Div, PhysicalU64, u64, uint64, checked_div);
-// @h name=c12_div_u128_exact props=C12,C05 tier=thorough
+// @h name=c12_div_u128_exact props=C12 tier=thorough
 // @h name=c12_div_u128_err props=C12,C15 tier=thorough
 binop!(c12_div_u128_exact, c12_div_u128_err, Div, PhysicalU128, u128, uint128, checked_div);
-// @h name=c12_rem_i8_exact props=C12,C05 tier=quick
+// @h name=c12_rem_i8_exact props=C12 tier=quick
 // @h name=c12_rem_i8_err props=C12,C15 tier=quick
 binop!(c12_rem_i8_exact, c12_rem_i8_err, Rem, PhysicalI8, i8, int8, checked_rem);
-// @h name=c12_rem_i16_exact props=C12,C05 tier=thorough
+// @h name=c12_rem_i16_exact props=C12 tier=thorough
 // @h name=c12_rem_i16_err props=C12,C15 tier=thorough
 binop!(c12_rem_i16_exact, c12_rem_i16_err, Rem, PhysicalI16, i16, int16, checked_rem);
-// @h name=c12_rem_i32_exact props=C12,C05 tier=thorough
+// @h name=c12_rem_i32_exact props=C12 tier=thorough
 // @h name=c12_rem_i32_err props=C12,C15 tier=thorough
 binop!(c12_rem_i32_exact, c12_rem_i32_err, Rem, PhysicalI32, i32, int32, checked_rem);
-// @h name=c12_rem_i64_exact props=C12,C05 tier=thorough
+// @h name=c12_rem_i64_exact props=C12 tier=thorough
 // @h name=c12_rem_i64_err props=C12,C15 tier=thorough
 binop!(c12_rem_i64_exact, c12_rem_i64_err, Rem, PhysicalI64, i64, int64, checked_rem);
-// @h name=c12_rem_i128_exact props=C12,C05 tier=thorough
+// @h name=c12_rem_i128_exact props=C12 tier=thorough
 // @h name=c12_rem_i128_err props=C12,C15 tier=thorough
 binop!(c12_rem_i128_exact, c12_rem_i128_err, Rem, PhysicalI128, i128, int128, checked_rem);
-// @h name=c12_rem_u8_exact props=C12,C05 tier=thorough
+// @h name=c12_rem_u8_exact props=C12 tier=thorough
 // @h name=c12_rem_u8_err props=C12,C15 tier=thorough
 binop!(c12_rem_u8_exact, c12_rem_u8_err, Rem, PhysicalU8, u8, uint8, checked_rem);
-// @h name=c12_rem_u16_exact props=C12,C05 tier=quick
+// @h name=c12_rem_u16_exact props=C12 tier=quick
 // @h name=c12_rem_u16_err props=C12,C15 tier=quick
 binop!(c12_rem_u16_exact, c12_rem_u16_err, Rem, PhysicalU16, u16, uint16, checked_rem);
-// @h name=c12_rem_u32_exact props=C12,C05 tier=thorough
+// @h name=c12_rem_u32_exact props=C12 tier=thorough
 // @h name=c12_rem_u32_err props=C12,C15 tier=thorough
 binop!(c12_rem_u32_exact, c12_rem_u32_err, Rem, PhysicalU32, u32, uint32, checked_rem);
-// @h name=c12_rem_u64_exact props=C12,C05 tier=thorough
+// @h name=c12_rem_u64_exact props=C12 tier=thorough
 // @h name=c12_rem_u64_err props=C12,C15 tier=thorough
 binop!(c12_rem_u64_exact, c12_rem_u64_err, Rem, PhysicalU64, u64, uint64, checked_rem);
-// @h name=c12_rem_u128_exact props=C12,C05 tier=thorough
+// @h name=c12_rem_u128_exact props=C12 tier=thorough
 // @h name=c12_rem_u128_err props=C12,C15 tier=thorough
 binop!(c12_rem_u128_exact, c12_rem_u128_err, Rem, PhysicalU128, u128, uint128, checked_rem);
-// @h name=c12_neg_i8_exact props=C12,C05 tier=thorough
+// @h name=c12_neg_i8_exact props=C12 tier=thorough
 // @h name=c12_neg_i8_err props=C12,C15 tier=thorough
 negop!(c12_neg_i8_exact, c12_neg_i8_err, PhysicalI8, i8, int8);
-// @h name=c12_neg_i16_exact props=C12,C05 tier=thorough
+// @h name=c12_neg_i16_exact props=C12 tier=thorough
 // @h name=c12_neg_i16_err props=C12,C15 tier=thorough
 negop!(c12_neg_i16_exact, c12_neg_i16_err, PhysicalI16, i16, int16);
-// @h name=c12_neg_i32_exact props=C12,C05 tier=quick
+// @h name=c12_neg_i32_exact props=C12 tier=quick
 // @h name=c12_neg_i32_err props=C12,C15 tier=quick
 negop!(c12_neg_i32_exact, c12_neg_i32_err, PhysicalI32, i32, int32);
-// @h name=c12_neg_i64_exact props=C12,C05 tier=thorough
+// @h name=c12_neg_i64_exact props=C12 tier=thorough
 // @h name=c12_neg_i64_err props=C12,C15 tier=thorough
 negop!(c12_neg_i64_exact, c12_neg_i64_err, PhysicalI64, i64, int64);
-// @h name=c12_neg_i128_exact props=C12,C05 tier=thorough
+// @h name=c12_neg_i128_exact props=C12 tier=thorough
 // @h name=c12_neg_i128_err props=C12,C15 tier=thorough
 negop!(c12_neg_i128_exact, c12_neg_i128_err, PhysicalI128, i128, int128);
